@@ -159,6 +159,22 @@ func MakeValue(class string, r *rand.Rand) (interface{}, error) {
 		return n, nil
 	}
 	switch {
+	// values of different types and shapes that encode to the SAME bytes (all zero): an overwrite of one by another
+	// changes the attribute's type or shape and nothing else
+	case base == "zi32":
+		return int32(0), nil
+	case base == "zf32":
+		return float32(0), nil
+	case base == "zi64":
+		return int64(0), nil
+	case base == "zf64":
+		return float64(0), nil
+	case base == "zai2":
+		return []int32{0, 0}, nil
+	case base == "zai1":
+		return []int32{0}, nil
+	case base == "zaf2":
+		return []float32{0, 0}, nil
 	case base == "i8":
 		return int8(pick(ext, r, []int64{math.MinInt8, math.MaxInt8, -1}) + salt), nil
 	case base == "i16":
